@@ -8,11 +8,11 @@
 EXTENDS Naturals, Integers, Sequences, FiniteSets, TLC, Json, IOUtils
 
 Rec == ndJsonDeserialize(IOEnv.TRACE)
-VARIABLES l, viol, trusted, base, devOf
-vars == <<l, viol, trusted, base, devOf>>
+VARIABLES l, viol, trusted, base, devOf, drift
+vars == <<l, viol, trusted, base, devOf, drift>>
 CapViol(v, new) == v \cup {x \in new : Cardinality({y \in v : y.prop = x.prop}) < 40}
 When(c, S) == IF c THEN S ELSE {}
-Init == l = 1 /\ viol = {} /\ trusted = {} /\ base = 0 /\ devOf = <<>>
+Init == l = 1 /\ viol = {} /\ trusted = {} /\ base = 0 /\ devOf = <<>> /\ drift = {}
 
 FileRec(e, f) == LET I == {i \in 1..Len(e.files) : e.files[i].f = f} IN
                  IF I = {} THEN [f |-> f, dev |-> "?", ctime |-> 0, mtime |-> 0] ELSE e.files[CHOOSE i \in I : TRUE]
@@ -35,16 +35,30 @@ Check(e) ==
                                               e.files[i].ctime = e.ret /\ e.files[i].dev \in trusted)),
             {"get_base_time returned neither the current base time nor the change-time of a trusted file"})
 
+\* should_refresh_base_time(leeway, now) is pure policy, outside C19: "refresh iff the base time is more than the leeway
+\* behind `now` and there is a trusted path to refresh from" (default leeway: two thirds of the forward tolerance,
+\* 2 * 2990 \div 3 ms).  A base time of 0 (none yet) is infinitely stale.  Deviations are reported as DRIFT.
+DefaultLeeway == (2 * 2990) \div 3
+ShouldRefresh(now, leeway, b, tr) ==
+  LET lee == IF leeway < 0 THEN DefaultLeeway ELSE leeway
+      age == IF b = 0 THEN 2000000000 ELSE IF now > b THEN now - b ELSE 0
+  IN age > lee /\ tr # {}
+PolicyDrift(e) ==
+  When(e.ev = "should_refresh" /\ e.panic = "" /\ e.err = "" /\ e.sr_now > 1
+       /\ (e.sr_ans = 1) # ShouldRefresh(e.sr_now, e.sr_leeway, e.base, trusted),
+       {[run |-> e.run, line |-> l, what |-> "should_refresh_base_time disagrees with the policy (age > leeway and a trusted path exists)"]})
+
 Next == /\ l <= Len(Rec) /\ l' = l + 1
         /\ LET e == Rec[l] IN
-           IF e.ev = "reset" THEN trusted' = {} /\ base' = 0 /\ UNCHANGED <<viol, devOf>>      \* a new process
-           ELSE IF e.ev \in {"end", "reset_after_crash"} THEN UNCHANGED <<viol, trusted, base, devOf>>
-           ELSE /\ viol' = CapViol(viol, {[run |-> e.run, line |-> l, prop |-> "C19", what |-> w] : w \in Check(e)})
+           IF e.ev = "reset" THEN trusted' = {} /\ base' = 0 /\ UNCHANGED <<viol, devOf, drift>>      \* a new process
+           ELSE IF e.ev \in {"end", "reset_after_crash"} THEN UNCHANGED <<viol, trusted, base, devOf, drift>>
+           ELSE /\ drift' = (IF Cardinality(drift) < 20 THEN drift \cup PolicyDrift(e) ELSE drift)
+                /\ viol' = CapViol(viol, {[run |-> e.run, line |-> l, prop |-> "C19", what |-> w] : w \in Check(e)})
                 /\ trusted' = IF e.ev = "add" /\ e.err = "" /\ e.panic = "" /\ "f" \in DOMAIN e
                               THEN trusted \cup {FileRec(e, e.f).dev} ELSE trusted
                 /\ base' = e.base
                 /\ devOf' = devOf
 Spec == Init /\ [][Next]_vars
 Done == (l = Len(Rec) + 1) =>
-          /\ PrintT(<<"TV-VIOL", ToJson(viol)>>) /\ PrintT(<<"TV-DRIFT", ToJson({})>>) /\ PrintT(<<"TV-DONE", Len(Rec)>>)
+          /\ PrintT(<<"TV-VIOL", ToJson(viol)>>) /\ PrintT(<<"TV-DRIFT", ToJson(drift)>>) /\ PrintT(<<"TV-DONE", Len(Rec)>>)
 =============================================================================
